@@ -25,6 +25,41 @@ CLAIMED = {
     },
 }
 
+CLAIMED.update({
+    "C01": {
+        "text": "Machine-checked proof for every ordinary cell tree (all bit lengths, ref counts, depths) that the model "
+                "of Cell.__init__/get_hash/get_depth/calculate_representation_hash/__eq__/__hash__ equals the TON "
+                "representation hash and depth of Spec/CellRepr.v, incl. the depth limit; model tied to cell.py by a "
+                "differential run (all 1024 bit lengths, chains at the depth limit, DAGs, 4 construction routes).",
+        "design_ref": "DESIGN.md 4.1",
+        "technique": "Coq proof by induction on the cell tree (custom nested induction), padding/descriptor arithmetic for "
+                     "all lengths; correspondence by extracted OCaml model incl. Gallina SHA-256",
+        "note": "7 theorems closed under the global context; SHA-256 is the executable Gallina function, theorems hold "
+                "for any hash function.",
+    },
+    "C06": {
+        "text": "Machine-checked proof that for every list of in-range typed values the model of Builder.store_* writes "
+                "exactly the TL-B encoding (stated with Z.testbit) and the model of Slice.load_* returns the same values "
+                "and consumes everything; peeks agree with loads; var-int lengths are minimal; snake strings round-trip "
+                "for every length. Model tied to builder.py/slice.py/address.py by a differential run.",
+        "design_ref": "DESIGN.md 4.6",
+        "technique": "Coq proof by induction over heterogeneous value lists, width-generic bit lemmas; correspondence by "
+                     "extracted OCaml model",
+        "note": "8 theorems closed under the global context. Known findings F26 (snake recursion), F27 (extern address "
+                "of length 0) are reported as KNOWN-FINDING.",
+    },
+    "C07": {
+        "text": "Machine-checked proof over all store-operation histories that the builder model never exceeds 1023 bits / "
+                "4 refs / depth 1023, refuses out-of-range values and overflowing stores, never refuses a fitting one, and "
+                "that every successful read consumed exactly a real prefix (no fabricated or truncated data); over-reads "
+                "raise. Model tied to the code by a differential run of store and load sequences at all fill levels.",
+        "design_ref": "DESIGN.md 4.7",
+        "technique": "Coq invariant proof by induction over operation lists (fold), per-op capacity lemmas; correspondence "
+                     "by extracted OCaml model",
+        "note": "8 theorems closed under the global context.",
+    },
+})
+
 PENDING_REASON = "check not built yet in this round (design in DESIGN.md section 4); not claimed until it exists"
 
 
